@@ -213,6 +213,13 @@ class Tle:
                     )
                 )
 
+        if text[0].strip()[2:7] != text[1].strip()[2:7]:
+            raise TleParseError(
+                "The two lines do not belong to the same object ({} / {})".format(
+                    text[0].strip()[2:7], text[1].strip()[2:7]
+                )
+            )
+
     @classmethod
     def _checksum(cls, line):
         """Compute the checksum of a full line
